@@ -700,6 +700,14 @@ class World(object):
 
     def __init__(self, policies=None, db_from=None, keep=False):
         self.dir = tempfile.mkdtemp(prefix='verif-w-', dir=SCRATCH_BASE)
+        try:
+            # long-lived base worlds of a worker process are never closed explicitly: remove their
+            # scratch directory when the process ends (also in pool workers, which skip atexit)
+            from multiprocessing import util as _mpu
+            _mpu.Finalize(None, shutil.rmtree, args=(self.dir,), kwargs={'ignore_errors': True},
+                          exitpriority=0)
+        except Exception:   # noqa
+            pass
         self.db = os.path.join(self.dir, 'kmip.db')
         shutil.copyfile(db_from or template_db(), self.db)
         self.policies = policies if policies is not None else default_policies()
